@@ -654,6 +654,12 @@ void QXmppOutgoingClient::handleStream(const QDomElement &streamElement)
         // no version specified, signals XMPP Version < 1.0.
         // switch to old auth mechanism if enabled
         if (d->streamVersion.isEmpty() && configuration().useNonSASLAuthentication()) {
+            // a pre-1.0 stream cannot negotiate STARTTLS: never authenticate in clear when TLS is required
+            if (!socket()->isEncrypted() && configuration().streamSecurityMode() == QXmppConfiguration::TLSRequired) {
+                warning(u"Server does not support TLS (pre-1.0 stream)"_s);
+                disconnectFromHost();
+                return;
+            }
             startNonSaslAuth();
         }
     }
